@@ -300,7 +300,7 @@ def register(E):
             outs.append((z3.simplify(z3.And(before, c)), None, eff))
         return outs
 
-    @model(r'^<(?:std::slice::Iter|std::slice::IterMut|std::vec::IntoIter|std::option::IntoIter|std::option::Iter|std::array::IntoIter|std::collections::btree_set::IntoIter|std::collections::btree_set::Iter|std::collections::hash_set::IntoIter|std::collections::hash_set::Iter|std::collections::hash_map::Iter|std::collections::hash_map::IntoIter|std::collections::hash_map::Keys|std::collections::btree_map::Iter|std::iter::Flatten|std::iter::Inspect) as std::iter::Iterator>::(\w+)$')
+    @model(r'^<(?:std::slice::Iter|std::slice::IterMut|std::vec::IntoIter|std::option::IntoIter|std::option::Iter|std::array::IntoIter|std::collections::btree_set::IntoIter|std::collections::btree_set::Iter|std::collections::hash_set::IntoIter|std::collections::hash_set::Iter|std::collections::hash_map::Iter|std::collections::hash_map::IntoIter|std::collections::hash_map::Keys|std::collections::btree_map::Iter|std::collections::btree_map::IntoIter|serde_json::map::IntoIter|serde_json::map::Iter|std::iter::Flatten|std::iter::Inspect) as std::iter::Iterator>::(\w+)$')
     def _(E, st, callee, a, m):
         return seq_iter_op(E, st, callee, a, m.group(1))
 
